@@ -30,6 +30,9 @@ ASSUMPTIONS = [
     "canonical form: request line, 'Host: <peer>' (IPv6 bracketed, no port; zone id kept or stripped), then iff a body:"
     " 'Content-Length: n', 'Content-Type: t' in that order; CRLF; blank line; body",
     "id order inside a read URL is unspecified (ids are a set); each id must be rendered aid.iid in decimal, comma-joined",
+    "byte-level form of the characteristic payloads the pairing API builds itself (write, subscribe, identify): a single"
+    " 'characteristics' member whose items start with the members aid, iid in that order (the form of the HAP"
+    " specification's examples); member order of caller-supplied JSON documents and of /resource is not judged",
 ]
 SHARDS = {"quick": 8, "thorough": 16}
 TIMEOUT = {"quick": 600, "thorough": 3600}
@@ -132,7 +135,23 @@ class Session:
         return result
 
 
-def expect_one(method, target=None, body=None, ct=None, json_obj=None, target_re=None):
+def char_payload_order(body: bytes):
+    """Library-built characteristic payloads, byte-level: {"characteristics":[{"aid":..,"iid":..,<value|ev|...>}]} - the id
+    pair leads every item in the order aid, iid (the form of the HAP specification's examples, which iOS sends)."""
+    try:
+        doc = json.loads(body.decode("utf-8"), object_pairs_hook=list)
+    except Exception:  # noqa: BLE001
+        return []
+    if not (isinstance(doc, list) and len(doc) == 1 and doc[0][0] == "characteristics" and isinstance(doc[0][1], list)):
+        return [f"top level is not a single 'characteristics' member: {body[:80]!r}"]
+    for item in doc[0][1]:
+        keys = [k for k, _ in item] if isinstance(item, list) else None
+        if not keys or keys[:2] != ["aid", "iid"]:
+            return [f"characteristic item members in order {keys}, canonical form starts with aid, iid"]
+    return []
+
+
+def expect_one(method, target=None, body=None, ct=None, json_obj=None, target_re=None, char_payload=False):
     def check(reqs, result):
         if len(reqs) != 1:
             return [f"{len(reqs)} requests sent, expected 1 (result {result!r})"]
@@ -154,6 +173,8 @@ def expect_one(method, target=None, body=None, ct=None, json_obj=None, target_re
                     p.append(f"JSON body {r['body'][:200]!r} != {json_obj!r}")
             except Exception as ex:  # noqa: BLE001
                 p.append(f"body is not JSON: {ex}")
+        if char_payload:
+            p += char_payload_order(r["body"])
         return p
 
     return check
@@ -186,6 +207,7 @@ def expect_subscriptions(ids, ev):
                 p.append(f"request line {r['method']} {r['target']}")
                 continue
             doc = json.loads(r["body"].decode())
+            p += char_payload_order(r["body"])
             items = doc.get("characteristics", [])
             if set(doc) != {"characteristics"} or any(set(it) != {"aid", "iid", "ev"} or it["ev"] is not ev for it in items):
                 p.append(f"payload shape {doc!r}")
@@ -302,7 +324,7 @@ async def run_session(ctx, idx) -> None:
                 i = rng.choice([9, 10, 11, 12])
                 writes.append((a, i, gen_value(rng)))
             want = {"characteristics": [{"aid": a, "iid": i, "value": v} for a, i, v in writes]}
-            await s.call(f"put_characteristics({n})", p.put_characteristics(writes), expect_one("PUT", "/characteristics", None, JSON_CT, json_obj=want))
+            await s.call(f"put_characteristics({n})", p.put_characteristics(writes), expect_one("PUT", "/characteristics", None, JSON_CT, json_obj=want, char_payload=True))
         for k in range(ctx.pick(6, 40)):
             n = rng.choice([1, 2, 3, 6])
             ids = sorted({(rng.randint(1, 3), rng.choice([9, 10, 13])) for _ in range(n)})
@@ -314,7 +336,7 @@ async def run_session(ctx, idx) -> None:
         await s.call("remove_pairing", p.remove_pairing("ctl-ü"), expect_one("POST", "/pairings", reftlv.encode(want), TLV_CT))
         want = [(6, b"\x01"), (0, b"\x05")]
         await s.call("list_pairings", p.list_pairings(), expect_one("POST", "/pairings", reftlv.encode(want), TLV_CT))
-        await s.call("identify", p.identify(), expect_one("PUT", "/characteristics", None, JSON_CT, json_obj={"characteristics": [{"aid": 1, "iid": 2, "value": True}]}))
+        await s.call("identify", p.identify(), expect_one("PUT", "/characteristics", None, JSON_CT, json_obj={"characteristics": [{"aid": 1, "iid": 2, "value": True}]}, char_payload=True))
         wimg = {"aid": 2, "resource-type": "image", "image-width": 640, "image-height": 480}
         await s.call("image", p.image(2, 640, 480), expect_one("POST", "/resource", None, JSON_CT, json_obj=wimg))
         # ---- reconnect to ANOTHER advertised address: the Host header must follow the connected peer ----
